@@ -11,7 +11,8 @@ META = {
     "text": "Theorems in coq/Properties_C20.v about coq/C20_Model.v (a transcription of the constructors of fvector.hh, the bounds-checked "
             "__getitem__/__setitem__ of densevector.hh, the Python wrapper of python/dune/common/__init__.py with its NumPy fallback, "
             "CPython slice adjustment, the overload sets of the copying/in-place operators incl. the n=1 and int/float special cases, "
-            "str/repr, norms) over a heap of cells so that views and copies are distinguishable.  The model is tied to the code on every "
+            "str/repr, norms) over a heap of cells so that views and copies are distinguishable; the buffer requests of the NumPyVector and "
+            "FieldVector constructors against the exporter's flags (read-only / format / dimension: c20_npv_gate, c20_xstep).  The model is tied to the code on every "
             "run: FieldVector classes are generated just-in-time from the binding headers of the checked tree (sizes 1-5, thorough: +7), "
             "wrapped by the checked tree's python/dune/common/__init__.py, and driven by the same op scripts as the extracted model.",
     "note": "Trusted: pybind11 argument conversion and overload resolution, NumPy, the buffer protocol, C++ <-> Python number conversion, "
@@ -24,8 +25,11 @@ REAL_REPO = "/repo"
 REAL_BUILD = "/repo/_build"
 HARNESS = os.path.join(V.VERIF, "harness", "C20")
 MUTATING = {"set", "iadd", "isub", "iaddl", "imuls", "idivs", "iadds", "isubs", "assign", "setslice", "isubl", "assignl", "setnp",
-            "setslicefrom", "arriadd", "arrisub", "arrimuls", "arriadds"}
-BAD_KINDS = ("npint", "npf32", "np2d", "bytearray", "arrayi")
+            "setslicefrom", "arriadd", "arrisub", "arrimuls", "arriadds", "nx", "iaddro", "isubro", "assignro"}
+BAD_KINDS = ("npint", "npf32", "np2d", "bytearray", "arrayi", "npbe", "bytes", "arrayf", "np0d", "npro2d")
+RO_KINDS = ("npro", "npfrombytes", "mvro")          # read-only exporters of doubles: accepted by the copying FieldVector constructor
+NX_RO = ("ro", "romv", "rob", "robc")               # read-only one-dimensional exporters handed to a NumPyVector
+REFUSALS = ("!ValueError", "!BufferError")          # how an exporter refuses a writable request (NumPy: ValueError; PEP 3118: BufferError)
 
 
 # ----------------------------------------------------------------------------------------- environment
@@ -179,6 +183,29 @@ class Oracle:
             return "!RuntimeError"            # NumPyVector around a two-dimensional array: Dune exception
         if op == "crossbad":
             return "!ValueError"
+        if op == "nx":
+            # seeding round 6: an access through a NumPyVector around an EXPORTER of register r.  A writable one-dimensional
+            # exporter shares the register's memory; a read-only exporter promises no writable memory: a write access MUST be
+            # refused (by the exporter's own exception) and nothing may change; a read may be refused as well (NumPyVector has
+            # no read-only mode) or return the right value; not one-dimensional: the documented Dune exception.
+            kind, acc = t[1], [t[3], t[2]] + t[4:]
+            if kind == "ro2d":
+                return "!RuntimeError"
+            if kind in ("w", "warr"):
+                return self.step(acc)
+            refused = hint.split("{")[0] if hint.split("{")[0] in REFUSALS else "!ValueError"
+            if acc[0] in ("set", "imuls", "iadds") or hint == "" or hint.split("{")[0] in REFUSALS:
+                return refused                    # (no impl observation at hand: what the code documents, i.e. what the model does)
+            if kind == "robc":
+                x0 = self.R[int(t[2])].vals()[0]
+                return {"len": "i:3", "get": "s:" + fr(x0), "norm22": "s:" + fr(3 * x0 * x0)}[acc[0]]
+            return self.step(acc)
+        if op == "newfromx":
+            if t[1] in ("rof32", "ro2d"):
+                return "!ValueError"
+            return self.fresh("v", self.conv(int(t[2]), self.R[int(t[3])].vals()))
+        if op in ("addro", "subro", "dotro", "eqro", "iaddro", "isubro", "assignro"):
+            return self.step([op[:-2]] + t[1:], hint)        # the operand conversion copies: a read-only exporter is an operand like any other
         if op == "new" and self.f32 and t[2] in ("np", "nprev", "npstride", "array", "npcol", "memview", "npint"):
             return "!ValueError"
         if op == "new" and t[2] in BAD_KINDS and not (self.f32 and t[2] == "npf32"):
@@ -434,11 +461,14 @@ def judge(case, impl_line):
                 if t[0] in ("get", "set") and int(t[2]) < 0:
                     sig = "C20:%snegative-index" % prefix_of(case).replace(" ; ", ":")
             elif is_npv(case):
-                pass
+                if t[0] == "nx":
+                    sig += ":" + t[1]
             elif t[0] == "set" and int(t[2]) < 0 and a.startswith("!TypeError"):
                 sig += ":negative-index"
             elif t[0] == "new":
                 sig += ":" + t[2]
+            elif t[0] == "newfromx":
+                sig += ":" + t[1]
             elif a.startswith("!") or et[j].startswith("!"):
                 sig += ":exception"
             shrunk = prefix_of(case) + " ; ".join(" ".join(x) for x in ops[:j + 1])
@@ -628,6 +658,40 @@ def gen(ctx, sizes):
         cases.append("f32 ; new %d list %s ; new %d npf32 %s ; view 0 ; bufinfo32 0 ; set 2 0 50 ; slice 0 _ _ -1 ; set 3 0 60 ; add 0 1 ; sub 0 3 ; dot 0 1 ; eq 0 2 ; iadd 0 1 ; "
                      "isub 0 3 ; muls 0 2 ; divs 0 4 ; imuls 0 1/2 ; neg 0 ; copyctor 0 ; copymeth 0 ; set 8 0 1 ; norm1 0 ; norm22 0 ; norminf 0 ; addl 0 %s ; eql 0 %s ; "
                      "newfrom %d 3 ; crossbad 0 ; crossbad 2 ; assign 0 3 ; arriadd 2 1 ; setslicefrom 0 _ _ _ 3 ; str 0" % (n, ql(v), n, ql(w), ql(w), ql(v), n))
+    # (13) seeding round 6: kind / flags of the EXPORTING BUFFER for every entry point that takes a buffer
+    #      (a) FieldVector constructor: read-only exporters of doubles (flag cleared, over a bytes object, read-only memoryview, broadcast)
+    #          x every length 0..n+2; the rejected kinds (byte order, raw bytes, itemsize, 0-d, read-only 2-d) run with BAD_KINDS in (1)
+    for n in sizes:
+        for kind in RO_KINDS:
+            for k in range(0, n + 3):
+                cases.append("new %d %s %s ; iter 0 ; len 0" % (n, kind, ql(rvals(k))))
+        for k in range(0, n + 3):
+            cases.append("new %d npbc %s ; iter 0" % (n, ql([rv()] * k)))
+    #      (b) FieldVector_n( exporter of another object ) and read-only exporters as operands of every operand-taking op
+    for n in sizes:
+        for m in sizes:
+            cases.append("new %d list %s ; newfromx ro %d 0 ; view 0 ; newfromx romv %d 2 ; slice 0 _ _ -1 ; newfromx ro %d 4 ; slice 0 _ _ 2 ; newfromx ro %d 6 ; "
+                         "newfromx w %d 6 ; newfromx rof32 %d 0 ; newfromx ro2d %d 2 ; newfromx romv %d 0 ; addro 1 4 ; subro 1 6 ; dotro 1 2 ; eqro 1 2 ; iaddro 1 4 ; isubro 1 6 ; "
+                         "assignro 1 2 ; eqro 1 0 ; set 1 0 77 ; iter 0 ; iter 2 ; dotro 0 0 ; iaddro 0 0" % ((m, ql(rvals(m))) + (n,) * 8))
+    #      (c) NumPyVector( buffer ) x exporter flags x access: read-only exporters (flag, read-only memoryview, bytes object,
+    #          broadcast) must refuse every write and change nothing; writable ones (view, array.array) share; over contiguous,
+    #          stepped, reversed and empty views and over the buffer view of a FieldVector
+    for n in (1, 2, 3, 6):
+        base = [Fraction(i + 1) for i in range(n)]
+        for (a, b, c) in [("_", "_", "_"), ("_", "_", "2"), ("1", "_", "_"), ("_", "_", "-1"), ("_", "-1", "2"), ("_", "_", "-2"), ("1", "1", "_")]:
+            m = len(range(n)[slice(*[None if t == "_" else int(t) for t in (a, b, c)])])
+            pre = ["npv", "new %d list %s" % (n, ql(base)), "slice 0 %s %s %s" % (a, b, c)]
+            for kind in NX_RO:
+                if kind == "robc" and m == 0: continue
+                acc = (["set 0 50", "set %d -7/2" % (m - 1)] if m else []) + ["imuls 2", "iadds 1"] + (["get 0"] if m else []) + ["len", "norm22"]
+                cases.append(" ; ".join(pre + ["nx %s 1 %s" % (kind, x) for x in acc]))
+            cases.append(" ; ".join(pre + ["nx ro2d 1 len", "nx ro2d 1 imuls 2"]))
+            if m:
+                cases.append(" ; ".join(pre + ["nx w 1 set %d 50" % (m - 1), "nx warr 1 set 0 -7/2", "nx ro 1 imuls 3", "nx w 1 imuls 2", "nx warr 1 iadds 1", "nx rob 1 set 0 9",
+                                               "nx w 1 get 0", "nx warr 1 len", "nx w 1 norm22", "nx romv 1 iadds 5", "get 1 0"]))
+    for n in sizes:
+        cases.append("npv ; newv %d list %s ; view 0 ; nx ro 1 imuls 2 ; nx romv 1 set 0 9 ; nx w 1 imuls 2 ; nx rob 1 iadds 1 ; nx robc 1 imuls 2 ; nx w 1 set %d 5 ; nx ro 1 get 0 ; "
+                     "slice 0 _ _ -1 ; nx ro 2 set 0 1 ; nx w 2 set 0 4 ; norm1 1" % (n, ql(rvals(n)), n - 1))
     # boundary: the zero-size instance Dune::FieldVector<double,0>
     cases.append("new 0 list - ; len 0 ; iter 0 ; str 0 ; repr 0 ; get 0 0 ; get 0 -1 ; set 0 0 1 ; set 0 -1 1 ; view 0 ; len 1 ; iter 1 ; slice 0 _ _ -1 ; add 0 0 ; dot 0 0 ; eq 0 0 ; "
                  "norm22 0 ; norm1 0 ; norminf 0 ; neg 0 ; iadd 0 0 ; imuls 0 2 ; copyctor 0 ; copymeth 0 ; new 0 list 1,2 ; new 0 np 3 ; new 0 noarg - ; addl 0 1,2 ; eql 0 - ; eql 0 5 ; "
@@ -670,7 +734,8 @@ def gen(ctx, sizes):
                     if o == "arradd" and (regs[any_r][1] in (1, regs[a][1]) or regs[a][1] == 1):
                         regs.append(("a", regs[any_r][1] if regs[a][1] == 1 else regs[a][1]))
             elif z < 0.31:
-                m = rng.choice(sizes); ops.append("newfrom %d %d" % (m, any_r)); regs.append(("v", m))
+                m = rng.choice(sizes)
+                ops.append(rng.choice(["newfrom %d %d", "newfromx ro %d %d", "newfromx romv %d %d"]) % (m, any_r)); regs.append(("v", m))
             elif z < 0.34:
                 ops.append("copyctor %d" % any_r); regs.append(regs[any_r])
             elif z < 0.36 and neg_ok:
@@ -685,7 +750,8 @@ def gen(ctx, sizes):
             elif z < 0.60:
                 ops.append(rng.choice(["iter", "len"]) + " %d" % any_r)
             elif z < 0.72:
-                o = rng.choice(["add", "sub", "dot", "eq", "ne"]); ops.append("%s %d %d" % (o, r, any_r))
+                o = rng.choice(["add", "sub", "dot", "eq", "ne", "addro", "dotro"]); ops.append("%s %d %d" % (o, r, any_r))
+                if o == "addro": regs.append(("v", n))
                 if o in ("add", "sub"): regs.append(("v", n))
             elif z < 0.80:
                 ops.append("%s %d %d" % (rng.choice(["iadd", "isub", "assign"]), r, any_r))
@@ -831,7 +897,9 @@ def run(ctx):
         "evaluations": len(cases), "distinct_nontrivial": len(set(cases)),
         "rule": "one case = one op script run on fresh objects; cases = corpus + every constructor kind x source length 0..n+2 + all indices -n-2..n+1 "
                 "(get/set, on the vector and through a view) + huge indices + all (start,stop,step) slices over the boundary alphabet + operator table "
-                "(all operand sizes/kinds, n=1 and int/float special cases) + seeded random scripts (<= 9 ops) mixing views, copies and writes; sizes %s; "
+                "(all operand sizes/kinds, n=1 and int/float special cases) + seeded random scripts (<= 9 ops) mixing views, copies and writes + exporter "
+                "flags (read-only flag / read-only memoryview / bytes object / broadcast / byte order / itemsize / 0-d / 2-d) x entry point taking a buffer "
+                "(FieldVector constructor and operand conversion, NumPyVector) x access x view shape; sizes %s; "
                 "distinct = distinct script lines; every script constructs non-zero vectors" % sizes,
         "samples": cases[:1] + cases[len(cases) // 3: len(cases) // 3 + 2] + cases[-2:],
         "op_distribution": ops, "model_exception_kinds_hit": exc_hits, "scripts_writing_through_or_beside_an_alias": alias_cases,
